@@ -170,6 +170,8 @@ def contracts(env):
         Contract('bert_e.workflow.gitwaterflow.branches:QueueCollection.delete', args={'self': 'QCObj', 'queues': 'opaque'},
                  setup=qcd_setup, ensures=[('events_checked', lambda_true_self)], covers=['return']),
     ]
+    from specs import pushcmds
+    cs = cs + pushcmds.contracts(env)
     return cs
 
 
@@ -197,6 +199,16 @@ def iter_sources():
 
 
 def extra(rep, tier, seed, budget):
+    from pyvc import cli as _cli
+    from specs import c10 as _c10
+    _e10 = _c10.base_env()
+    for _c in _c10.contracts(_e10):
+        if _c.label.endswith('BertE.process'):
+            _c.label = _c.label + ' [C08 every job works on a fresh clone]'
+            _cli.handle_function(rep, _c10, _e10, _c, budget, _cli.load_lock().get('C08', {}))
+    from specs import shared_facts as _sf
+    _w = _c10.native_repository_reset()
+    _sf.add_facts(rep, [('Repository.reset: new working directory and empty remote-branch caches', _w['ok'], _w)], 'Repository.reset')
     from bounded import integrate as _integ
     _integ.system_histories(rep, tier, seed, ['C08_foreign_refs'])
     from pyvc import cli
@@ -245,7 +257,18 @@ def extra(rep, tier, seed, budget):
     from bounded import clone_mirror
     clone_mirror.integrate(rep)
     # known finding: a branch created by a third party after the clone is pruned
-    w = replay_prune_third_party()
+    try:
+        w = replay_prune_third_party()
+    except NotImplementedError as e:
+        # the in-memory git only understands the command lines Bert-E is known to issue: a push command outside
+        # that set (forced, mirrored, ...) is reported, not crashed on
+        if 'push' in str(e):
+            key = 'native:unmodelled_push_command'
+            path = write_replay(rep.pid, key, {'command': str(e)})
+            rep.violations.append({'key': key, 'what': 'Bert-E issued a push command line outside the known set: %s' % e,
+                                   'replay': path, 'input': str(e), 'noinput': False})
+            return
+        raise
     rep.bounded.append({'name': 'prune_third_party_branch (native, FakeRepo)', 'cases': 1, 'distinct_nontrivial': 1,
                         'result': w})
     if not w['ok']:
